@@ -265,7 +265,9 @@ impl Opts {
     /// Pick quick or thorough budget, divided over shards (at least 1).
     pub fn budget(&self, quick: u64, thorough: u64) -> u64 {
         let total = if self.thorough() { thorough } else { quick };
-        std::cmp::max(1, total / self.nshards as u64)
+        // `scale=N` (a slower build variant run alongside the main one): 1/N of the budget
+        let scale = self.val("scale").and_then(|s| s.parse::<u64>().ok()).unwrap_or(1).max(1);
+        std::cmp::max(1, total / self.nshards as u64 / scale)
     }
     pub fn flag(&self, name: &str) -> bool {
         self.extra.iter().any(|e| e == name)
@@ -315,4 +317,87 @@ pub fn fatal_violation(prop: &str, sig: &str, detail: &str, replay: Value) -> ! 
         None => println!("{js}"),
     }
     std::process::exit(0);
+}
+
+
+// ------------------------------------------------------ blocked-forever rule
+
+/// (state letter, voluntary context switches) of a thread of this process.
+pub fn task_stat(tid: i32) -> Option<(char, u64)> {
+    let st = std::fs::read_to_string(format!("/proc/self/task/{tid}/status")).ok()?;
+    let mut state = '?';
+    let mut vol = 0u64;
+    for l in st.lines() {
+        if let Some(r) = l.strip_prefix("State:") {
+            state = r.trim().chars().next().unwrap_or('?');
+        } else if let Some(r) = l.strip_prefix("voluntary_ctxt_switches:") {
+            vol = r.trim().parse().unwrap_or(0);
+        }
+    }
+    Some((state, vol))
+}
+
+/// Thread ids of this process whose name (comm, 15 chars) is one of `names`.
+pub fn tasks_named(names: &[String]) -> Vec<i32> {
+    let mut v = Vec::new();
+    if let Ok(rd) = std::fs::read_dir("/proc/self/task") {
+        for e in rd.flatten() {
+            let Ok(tid) = e.file_name().to_string_lossy().parse::<i32>() else { continue };
+            let comm = std::fs::read_to_string(format!("/proc/self/task/{tid}/comm")).unwrap_or_default();
+            let comm = comm.trim();
+            if names.iter().any(|n| n.chars().take(15).collect::<String>() == comm) {
+                v.push(tid);
+            }
+        }
+    }
+    v
+}
+
+/// A thread started by the harness whose closure calls into the library and
+/// may never come back (a wait that lost its time-out, a lock never released).
+/// There are no logical steps to count on a parked thread, so the rule reads
+/// the kernel's own counters: every wait of the library is a 100 ms timed
+/// wait, i.e. a parked-but-healthy thread blocks *again* (one more voluntary
+/// context switch) ten times a second; a thread that sleeps in state S with an
+/// unchanged voluntary-context-switch count for the whole window made no step
+/// at all. A loaded machine slows a thread down (state R, counts still
+/// moving): that never matches.
+pub struct Supervised<T> {
+    handle: std::thread::JoinHandle<T>,
+    tid: i32,
+}
+pub fn spawn_supervised<T: Send + 'static>(name: &str, f: impl FnOnce() -> T + Send + 'static) -> Supervised<T> {
+    let (tx, rx) = std::sync::mpsc::channel();
+    let handle = std::thread::Builder::new()
+        .name(name.to_string())
+        .spawn(move || {
+            let _ = tx.send(unsafe { libc::syscall(libc::SYS_gettid) } as i32);
+            f()
+        })
+        .expect("spawn");
+    let tid = rx.recv().unwrap_or(0);
+    Supervised { handle, tid }
+}
+impl<T> Supervised<T> {
+    /// Join; Err(description) if the thread is blocked for good (it is leaked).
+    pub fn join_or_blocked(self, window: std::time::Duration) -> Result<std::thread::Result<T>, String> {
+        let mut mark: Option<(std::time::Instant, u64)> = None;
+        loop {
+            if self.handle.is_finished() {
+                return Ok(self.handle.join());
+            }
+            match task_stat(self.tid) {
+                Some(('S', vol)) => match mark {
+                    Some((t0, v0)) if v0 == vol => {
+                        if t0.elapsed() >= window {
+                            return Err(format!("thread {} slept in state S for {:?} without a single wake-up (voluntary context switches stayed at {vol}); the library's waits are 100 ms timed waits", self.tid, t0.elapsed()));
+                        }
+                    }
+                    _ => mark = Some((std::time::Instant::now(), vol)),
+                },
+                _ => mark = None,
+            }
+            std::thread::sleep(std::time::Duration::from_millis(40));
+        }
+    }
 }
